@@ -112,6 +112,40 @@ func dnsQuery(k int) []byte {
 	return append(b, 0, 1, 0, 1)
 }
 
+// radius builds an Access-Request/Challenge whose EAP packet travels in zero,
+// one, two or three EAP-Message attributes (RFC 3579: an EAP packet longer
+// than 253 bytes is split over consecutive attributes), with other attributes
+// in front of, between the kinds and behind them.
+func radius(k int) []byte {
+	var attrs []byte
+	attr := func(t byte, v []byte) { attrs = append(append(attrs, t, byte(len(v)+2)), v...) }
+	attr(1, []byte("alice@example.org"))
+	eapLen := []int{0, 40, 300, 600, 253, 254}[k%6]
+	if eapLen > 0 {
+		eap := make([]byte, eapLen)
+		eap[0], eap[1], eap[4] = 1, 7, 13
+		binary.BigEndian.PutUint16(eap[2:], uint16(eapLen))
+		for i := 5; i < eapLen; i++ {
+			eap[i] = byte(i*7 + k)
+		}
+		for len(eap) > 0 {
+			n := min(len(eap), 253)
+			attr(79, eap[:n])
+			eap = eap[n:]
+		}
+	}
+	attr(4, []byte{10, 0, 0, 9})
+	attr(80, bytes.Repeat([]byte{0xA5}, 16))
+	if k%2 == 1 {
+		attr(32, []byte("nas-7"))
+	}
+	b := []byte{[]byte{1, 11}[k%2], byte(40 + k), 0, 0}
+	b = append(b, bytes.Repeat([]byte{0x3C}, 16)...)
+	b = append(b, attrs...)
+	binary.BigEndian.PutUint16(b[2:], uint16(len(b)))
+	return b
+}
+
 // dhcp4 builds a BOOTP/DHCP message whose option area is laid out in one of
 // several legal ways: Pad options (code 0) in front of, between and behind
 // the others, an overloaded list, options of length 0.
@@ -277,7 +311,9 @@ func corpus(c *sim.Ctx, big bool) ([][]byte, []gopacket.Decoder) {
 		}
 		good := c.Draw(2) == 0
 		var b []byte
-		switch c.Draw(15) {
+		switch c.Draw(16) {
+		case 15:
+			b = eth(0x0800, ip4(17, udp(40000, 1812, radius(c.Draw(6)), good), true), false)
 		case 14:
 			b = eth(0x0800, ip4(17, udp(68, 67, dhcp4(c.Draw(6)), good), true), false)
 		case 8:
